@@ -360,6 +360,34 @@ theorem checker_exact (g : SGraph) (min : Rat) (md seed : Nat) (tr : ATrace) (s 
     (h : runC g min 0 md seed tr = some s) : ∃ cs, run g min md seed tr.erase = some (s, cs) :=
   EdxmlProps.Search.runC_zero g min md seed tr s h
 
+/-- C20: seed selection ends mining only when every event object node is tainted, and otherwise
+picks an untainted node (which the round then taints: `round_decreases`) that no other candidate
+beats -/
+theorem pickOk_sound (cands : List Cand) (choice : Option Nat) (hnn : ∀ c ∈ cands, 0 ≤ c.taint)
+    (h : pickOk cands choice = true) :
+    (choice = none → ∀ c ∈ cands, 0 < c.taint) ∧
+    (∀ k, choice = some k → ∃ c ∈ cands, c.id = k ∧ c.taint ≤ 0 ∧
+      ∀ d ∈ cands, d.taint ≤ 0 → d.conf ≤ c.conf) := by
+  unfold pickOk at h
+  constructor
+  · intro hc c hcm
+    subst hc
+    simp only [List.isEmpty_iff, List.filter_eq_nil_iff, decide_eq_true_eq] at h
+    exact not_le.mp (h c hcm)
+  · intro k hc
+    subst hc
+    simp only [List.any_eq_true, List.mem_filter, decide_eq_true_eq, Bool.and_eq_true, beq_iff_eq, List.all_eq_true] at h
+    obtain ⟨c, ⟨hcm, hct⟩, hid, hall⟩ := h
+    refine ⟨c, hcm, hid, hct, fun d hd hdt => ?_⟩
+    have := hall d ⟨hd, hdt⟩
+    unfold seedKeyLe at this
+    simp only [Bool.or_eq_true, decide_eq_true_eq, Bool.and_eq_true] at this
+    rcases this with h1 | ⟨_, h2⟩
+    · -- a strictly smaller key means a strictly larger taint: impossible between two untainted candidates
+      have := hnn c hcm
+      linarith
+    · exact h2
+
 /-- C20 (coverage): mining without a seed goes on until no node has taint 0. A node whose taint is
 positive has a confidence with respect to some seed, and that confidence is above the minimum
 (`search_wellformed`) or 1 (the node is that seed): it is at least the minimum, so the node is part
